@@ -233,6 +233,25 @@ def run(ctx) -> None:
                  and not (isinstance(n.ast.value, ast.Constant) and isinstance(n.ast.value.value, bool))]
     ctx.require(bool(ret_true), "anchor missing: 'return True' in _input_dependencies_satisfied")
     for r_ in ret_other:
+        if r_.ast.value is None or (isinstance(r_.ast.value, ast.Constant) and r_.ast.value.value is None):
+            # 'no answer': what it means is decided by how the callers read the result.  `f(c) is False` / `f(c) == False` reads None as
+            # "satisfied" (None is not False); a truthiness test reads it as "not satisfied"
+            readers = []
+            for q_, f_ in ctl.functions.items():
+                for c_ in source.calls_in(f_, include_nested=True):
+                    if last_attr(c_) == "_input_dependencies_satisfied":
+                        readers.append((f_, c_))
+            ctx.require(bool(readers), "anchor missing: a caller of _input_dependencies_satisfied")
+            strict = [c_ for (_, c_) in readers if isinstance(source.parent(c_), ast.Compare) and any(
+                isinstance(k_, ast.Constant) and k_.value is False for k_ in source.parent(c_).comparators)]
+            ok_none = not strict
+            ctx.ob("C01.R4-deps-satisfied", r_.ast, ok_none,
+                   "a path without an answer (None) is read as 'not satisfied' by every caller (truthiness tests)" if ok_none else
+                   "_input_dependencies_satisfied can return None (%s), and its caller skips a component only when the answer 'is False' (%s): "
+                   "None is not False, so 'no answer' is read as 'all dependencies satisfied' - the component goes into the ready list and is "
+                   "launched while a producer is still running" % (short(r_.ast, 30), short(source.parent(strict[0]), 70)),
+                   construct="_input_dependencies_satisfied: every return is a verdict the caller reads as intended")
+            continue
         verdict = _classify_subject_return(r_.ast.value)
         if verdict == "all":
             ctx.ob("C01.R4-deps-satisfied", r_.ast, True, "returns whether ALL active subjects are staged in")
@@ -283,13 +302,13 @@ def run(ctx) -> None:
         # a subject that is being finished (put down without having been launched, or on its way to a final state) is not "launched
         # and running": on the finishCalled side the function answers False
         fin_tests = match.test_nodes(c2, lambda t: match.polarity(t, lambda e: isinstance(e, ast.Attribute) and e.attr == "finishCalled"))
+        # (only the tests inside the loop over the subjects concern a subject; a test of the component's own flag elsewhere is another matter)
+        fin_tests = [(tn, lab) for (tn, lab) in fin_tests if any(tn.ast is x for f in for_nodes for x in ast.walk(f.ast))]
         ok3 = bool(fin_tests) and bool(for_nodes)
         if ok3:
             for (tn, lab) in fin_tests:
                 succ = [m for (m, l2) in tn.succ if l2 == lab]
                 if rt.id in c2.reach(succ, blocked=for_nodes):
-                    ok3 = False
-                if not any(tn.ast is x for f in for_nodes for x in ast.walk(f.ast)):
                     ok3 = False
         ctx.ob("C01.R4-deps-satisfied", rt.ast, ok3,
                "a subject whose finish() was called does not satisfy the dependency until it is done" if ok3 else
